@@ -156,9 +156,7 @@ Qed.
 (* ------------------------------------------------------------------ *)
 Lemma pmod_pshift_in a b m : pmod (pshift_in a b) m = pstep m (pmod a m) b.
 Proof.
-  destruct a as [|p], b; try reflexivity.
-  cbn [pshift_in N.double pmod]. unfold pstep. cbn [pshift_in N.double].
-  rewrite N.bits_0. reflexivity.
+  destruct a as [|p], b; reflexivity.
 Qed.
 
 Lemma pmod_poly_of_bits_from acc bits m :
@@ -220,4 +218,268 @@ Lemma reflect_lt n x : reflect n x < 2 ^ N.of_nat n.
 Proof.
   unfold reflect. pose proof (poly_of_bits_lt (nbits_lsb n x)) as H.
   rewrite nbits_lsb_length in H. exact H.
+Qed.
+
+(* ------------------------------------------------------------------ *)
+(* division by the Castagnoli polynomial                               *)
+(* ------------------------------------------------------------------ *)
+Notation P := castagnoli.
+
+(* r * x mod P *)
+Definition xtimes (r : N) : N := pstep P r false.
+Definition xpow (k : nat) : N -> N := iter_n k xtimes.
+Definition poly32 : N := 0x1EDC6F41.
+
+Lemma xtimes_unfold r :
+  xtimes r = if N.testbit (N.double r) 32 then N.lxor (N.double r) P else N.double r.
+Proof. reflexivity. Qed.
+
+Lemma xtimes_linear : linear xtimes.
+Proof.
+  intros a b. rewrite !xtimes_unfold, double_lxor, N.lxor_spec.
+  destruct (N.testbit (N.double a) 32), (N.testbit (N.double b) 32); cbn [xorb]; xor_solve.
+Qed.
+
+Lemma xpow_linear k : linear (xpow k).
+Proof. apply linear_iter, xtimes_linear. Qed.
+
+Lemma pstep_lin r b : pstep P r b = N.lxor (xtimes r) (N.b2n b).
+Proof.
+  rewrite xtimes_unfold. unfold pstep. change (pdeg P) with 32.
+  rewrite pshift_in_lxor, N.lxor_spec.
+  replace (N.testbit (N.b2n b) 32) with false by (destruct b; reflexivity).
+  rewrite xorb_false_r. destruct (N.testbit (N.double r) 32); xor_solve.
+Qed.
+
+Lemma castagnoli_bits_high i : 32 < i -> N.testbit P i = false.
+Proof. intros H. apply (bits_of_lt_pow2 P 33); [reflexivity | lia]. Qed.
+
+Lemma xtimes_lt r : r < 2 ^ 32 -> xtimes r < 2 ^ 32.
+Proof.
+  intros H. apply lt_pow2_of_bits. intros i Hi. rewrite xtimes_unfold.
+  assert (forall j, 32 < j -> N.testbit (N.double r) j = false) as Hd.
+  { intros j Hj. replace j with (N.succ (N.pred j)) by lia. rewrite testbit_double_succ.
+    apply (bits_of_lt_pow2 r 32); [exact H | lia]. }
+  destruct (N.testbit (N.double r) 32) eqn:E.
+  - rewrite N.lxor_spec. destruct (N.eq_dec i 32) as [->|Hne].
+    + rewrite E. reflexivity.
+    + rewrite Hd by lia. rewrite castagnoli_bits_high by lia. reflexivity.
+  - destruct (N.eq_dec i 32) as [->|Hne]; [exact E | apply Hd; lia].
+Qed.
+
+Lemma xtimes_small r : r < 2 ^ 31 -> xtimes r = N.double r.
+Proof.
+  intros H. rewrite xtimes_unfold. replace 32 with (N.succ 31) at 1 by reflexivity.
+  rewrite testbit_double_succ. rewrite (bits_of_lt_pow2 r 31 31 H) by lia. reflexivity.
+Qed.
+
+Lemma b2n_lt b : N.b2n b < 2 ^ 32.
+Proof. destruct b; reflexivity. Qed.
+
+Lemma pstep_lt r b : r < 2 ^ 32 -> pstep P r b < 2 ^ 32.
+Proof. intros H. rewrite pstep_lin. apply lxor_lt_pow2; [apply xtimes_lt, H | apply b2n_lt]. Qed.
+
+Lemma xpow_lt k r : r < 2 ^ 32 -> xpow k r < 2 ^ 32.
+Proof. intros H. induction k as [|k IH]; [exact H|]. cbn [xpow iter_n]. apply xtimes_lt, IH. Qed.
+
+Lemma xpow_0 k : xpow k 0 = 0.
+Proof. apply linear_0, xpow_linear. Qed.
+
+Lemma xpow_succ_r k r : xpow (S k) r = xpow k (xtimes r).
+Proof. unfold xpow. cbn [iter_n]. symmetry. apply iter_comm. Qed.
+
+Lemma pmod_pos_lt p : pmod_pos p P < 2 ^ 32.
+Proof.
+  induction p as [q IH|q IH|]; cbn [pmod_pos].
+  - apply pstep_lt, IH.
+  - apply pstep_lt, IH.
+  - reflexivity.
+Qed.
+
+Lemma pmod_lt a : pmod a P < 2 ^ 32.
+Proof. destruct a as [|p]; [reflexivity | apply pmod_pos_lt]. Qed.
+
+Lemma fold_pstep_lt bits r : r < 2 ^ 32 -> fold_left (pstep P) bits r < 2 ^ 32.
+Proof.
+  revert r. induction bits as [|b l IH]; intros r H; [exact H|]. cbn [fold_left]. apply IH, pstep_lt, H.
+Qed.
+
+Lemma div2_lt a n : a < 2 ^ N.succ n -> N.div2 a < 2 ^ n.
+Proof.
+  intros H. rewrite N.div2_div. apply N.div_lt_upper_bound; [lia|].
+  rewrite N.pow_succ_r' in H. exact H.
+Qed.
+
+Lemma pmod_small_n (n : nat) : (n <= 32)%nat -> forall a, a < 2 ^ N.of_nat n -> pmod a P = a.
+Proof.
+  induction n as [|n IH]; intros Hn a Ha.
+  - simpl in Ha. assert (a = 0) as -> by lia. reflexivity.
+  - rewrite Nat2N.inj_succ in Ha. pose proof (div2_lt a _ Ha) as Hh.
+    pose proof (pshift_in_div2 a) as E. set (h := N.div2 a) in *. set (o := N.odd a) in *.
+    rewrite E at 1. rewrite pmod_pshift_in, (IH ltac:(lia) h Hh), pstep_lin, xtimes_small.
+    + rewrite <- pshift_in_lxor. symmetry. exact E.
+    + apply N.lt_le_trans with (2 ^ N.of_nat n); [exact Hh|]. apply N.pow_le_mono_r; lia.
+Qed.
+
+Lemma pmod_small a : a < 2 ^ 32 -> pmod a P = a.
+Proof. apply (pmod_small_n 32). lia. Qed.
+
+Lemma pmod_lxor_n (n : nat) : forall a b, a < 2 ^ N.of_nat n -> b < 2 ^ N.of_nat n ->
+  pmod (N.lxor a b) P = N.lxor (pmod a P) (pmod b P).
+Proof.
+  induction n as [|n IH]; intros a b Ha Hb.
+  - simpl in Ha, Hb. assert (a = 0) as -> by lia. assert (b = 0) as -> by lia. reflexivity.
+  - rewrite Nat2N.inj_succ in Ha, Hb.
+    pose proof (div2_lt a _ Ha) as Hha. pose proof (div2_lt b _ Hb) as Hhb.
+    pose proof (pshift_in_div2 a) as Ea. pose proof (pshift_in_div2 b) as Eb.
+    set (ha := N.div2 a) in *. set (oa := N.odd a) in *.
+    set (hb := N.div2 b) in *. set (ob := N.odd b) in *.
+    rewrite Ea, Eb. rewrite <- pshift_in_xor. rewrite !pmod_pshift_in, (IH ha hb Hha Hhb).
+    rewrite !pstep_lin, xtimes_linear, b2n_xorb. xor_solve.
+Qed.
+
+Lemma pmod_lxor a b : pmod (N.lxor a b) P = N.lxor (pmod a P) (pmod b P).
+Proof.
+  set (n := N.to_nat (N.succ (N.max (N.log2 a) (N.log2 b)))).
+  assert (forall x, N.log2 x <= N.max (N.log2 a) (N.log2 b) -> x < 2 ^ N.of_nat n) as Hb.
+  { intros x Hx. unfold n. rewrite N2Nat.id. destruct (N.eq_dec x 0) as [->|Hne].
+    - apply N.neq_0_lt_0, N.pow_nonzero. discriminate.
+    - apply N.log2_lt_pow2; lia. }
+  apply (pmod_lxor_n n); apply Hb; lia.
+Qed.
+
+Lemma fold_pstep_zeros k r : fold_left (pstep P) (repeat false k) r = xpow k r.
+Proof.
+  revert r. induction k as [|k IH]; intros r; [reflexivity|].
+  cbn [repeat fold_left]. rewrite IH. fold (xtimes r). rewrite xpow_succ_r. reflexivity.
+Qed.
+
+Lemma pmod_shiftl x k : pmod (N.shiftl x (N.of_nat k)) P = xpow k (pmod x P).
+Proof. rewrite <- poly_of_bits_from_zeros, pmod_poly_of_bits_from. apply fold_pstep_zeros. Qed.
+
+(* feeding the bit b after R, seen 32 places further up *)
+Definition astep (T : N) (b : bool) : N := N.lxor (xtimes T) (if b then poly32 else 0).
+
+Lemma xpow32_1 : xpow 32 1 = poly32.
+Proof. vm_compute. reflexivity. Qed.
+
+Lemma xpow_b2n b : xpow 32 (N.b2n b) = if b then poly32 else 0.
+Proof. destruct b; [apply xpow32_1 | apply xpow_0]. Qed.
+
+(* x^32 * (R * x^n + bits) + S * x^n, reduced, is what the augmented register computes *)
+Lemma horner_shift32 bits : forall R S,
+  N.lxor (xpow 32 (fold_left (pstep P) bits R)) (xpow (length bits) S) =
+  fold_left astep bits (N.lxor (xpow 32 R) S).
+Proof.
+  induction bits as [|b l IH]; intros R S; [reflexivity|].
+  cbn [fold_left length]. rewrite xpow_succ_r, IH. f_equal.
+  unfold astep. rewrite pstep_lin, (xpow_linear 32), xpow_b2n, xtimes_linear.
+  change (xpow 32 (xtimes R)) with (xpow 33 R). change (xtimes (xpow 32 R)) with (xpow 33 R).
+  xor_solve.
+Qed.
+
+(* at most 32 coefficients fed after R: no reduction touches them *)
+Lemma feed_short bits : forall R, (length bits <= 32)%nat ->
+  fold_left (pstep P) bits R = N.lxor (xpow (length bits) R) (poly_of_bits bits).
+Proof.
+  induction bits as [|b l IH] using rev_ind; intros R Hl.
+  - cbn. rewrite N.lxor_0_r. reflexivity.
+  - rewrite app_length in Hl. cbn [length] in Hl.
+    rewrite fold_left_app. cbn [fold_left]. rewrite IH by lia.
+    rewrite pstep_lin, xtimes_linear.
+    unfold poly_of_bits. rewrite poly_of_bits_from_app. cbn [poly_of_bits_from fold_left].
+    fold (poly_of_bits l). rewrite pshift_in_lxor, app_length. cbn [length].
+    replace (length l + 1)%nat with (S (length l)) by lia. cbn [xpow iter_n]. fold (xpow (length l)).
+    rewrite (xtimes_small (poly_of_bits l)).
+    + xor_solve.
+    + apply N.lt_le_trans with (2 ^ N.of_nat (length l)); [apply poly_of_bits_lt|].
+      apply N.pow_le_mono_r; lia.
+Qed.
+
+(* ------------------------------------------------------------------ *)
+(* the reflected register                                              *)
+(* ------------------------------------------------------------------ *)
+Lemma rshift1_unfold s :
+  rshift1 s = N.lxor (N.shiftr s 1) (if N.testbit s 0 then castagnoli_reflected else 0).
+Proof. unfold rshift1. destruct (N.testbit s 0); [reflexivity | rewrite N.lxor_0_r; reflexivity]. Qed.
+
+Lemma rshift1_linear : linear rshift1.
+Proof.
+  intros a b. rewrite !rshift1_unfold, N.shiftr_lxor, N.lxor_spec.
+  destruct (N.testbit a 0), (N.testbit b 0); cbn [xorb]; xor_solve.
+Qed.
+
+Lemma rstep_lin s b : rstep s b = N.lxor (rshift1 s) (if b then castagnoli_reflected else 0).
+Proof.
+  unfold rstep. rewrite rshift1_linear. f_equal. destruct b; reflexivity.
+Qed.
+
+Lemma shiftr_lt s k n : s < 2 ^ n -> N.shiftr s k < 2 ^ n.
+Proof.
+  intros H. apply lt_pow2_of_bits. intros i Hi. rewrite N.shiftr_spec'.
+  apply (bits_of_lt_pow2 s n); [exact H | lia].
+Qed.
+
+Lemma rshift1_lt s : s < 2 ^ 32 -> rshift1 s < 2 ^ 32.
+Proof.
+  intros H. rewrite rshift1_unfold. apply lxor_lt_pow2; [apply shiftr_lt, H|].
+  destruct (N.testbit s 0); reflexivity.
+Qed.
+
+Lemma rstep_lt s b : s < 2 ^ 32 -> rstep s b < 2 ^ 32.
+Proof.
+  intros H. rewrite rstep_lin. apply lxor_lt_pow2; [apply rshift1_lt, H | destruct b; reflexivity].
+Qed.
+
+Lemma crc_bits_lt bits s : s < 2 ^ 32 -> crc_bits s bits < 2 ^ 32.
+Proof.
+  revert s. unfold crc_bits. induction bits as [|b l IH]; intros s H; [exact H|].
+  cbn [fold_left]. apply IH, rstep_lt, H.
+Qed.
+
+Lemma reflect32_xtimes T : T < 2 ^ 32 -> reflect 32 (xtimes T) = rshift1 (reflect 32 T).
+Proof.
+  apply (linear_ext_sweep (fun x => reflect 32 (xtimes x)) (fun x => rshift1 (reflect 32 x)) 32).
+  - apply (linear_compose (reflect 32) xtimes); [apply reflect_linear | apply xtimes_linear].
+  - apply (linear_compose rshift1 (reflect 32)); [apply rshift1_linear | apply reflect_linear].
+  - vm_compute. reflexivity.
+Qed.
+
+Lemma reflect32_invol s : s < 2 ^ 32 -> reflect 32 (reflect 32 s) = s.
+Proof.
+  apply (linear_ext_sweep (fun x => reflect 32 (reflect 32 x)) (fun x => x) 32).
+  - apply (linear_compose (reflect 32) (reflect 32)); apply reflect_linear.
+  - intros a b. reflexivity.
+  - vm_compute. reflexivity.
+Qed.
+
+Lemma reflect32_poly32 : reflect 32 poly32 = castagnoli_reflected.
+Proof. vm_compute. reflexivity. Qed.
+
+Lemma astep_lt T b : T < 2 ^ 32 -> astep T b < 2 ^ 32.
+Proof.
+  intros H. unfold astep. apply lxor_lt_pow2; [apply xtimes_lt, H | destruct b; reflexivity].
+Qed.
+
+Lemma reflect32_astep T b : T < 2 ^ 32 -> reflect 32 (astep T b) = rstep (reflect 32 T) b.
+Proof.
+  intros H. unfold astep. rewrite reflect_linear, (reflect32_xtimes T H), rstep_lin. f_equal.
+  destruct b; [apply reflect32_poly32 | reflexivity].
+Qed.
+
+Lemma reflect32_fold_astep bits : forall T, T < 2 ^ 32 ->
+  reflect 32 (fold_left astep bits T) = crc_bits (reflect 32 T) bits.
+Proof.
+  unfold crc_bits. induction bits as [|b l IH]; intros T H; [reflexivity|].
+  cbn [fold_left]. rewrite IH by (apply astep_lt, H). rewrite reflect32_astep by exact H. reflexivity.
+Qed.
+
+(* THE LINK: the reflected register run over [bits] from reflect(x^32 R + S) holds
+   reflect(x^32 * (R x^n + bits) + S x^n  mod P) *)
+Theorem crc_bits_algebra bits R S : R < 2 ^ 32 -> S < 2 ^ 32 ->
+  crc_bits (reflect 32 (N.lxor (xpow 32 R) S)) bits =
+  reflect 32 (N.lxor (xpow 32 (fold_left (pstep P) bits R)) (xpow (length bits) S)).
+Proof.
+  intros HR HS. rewrite horner_shift32. symmetry. apply reflect32_fold_astep.
+  apply lxor_lt_pow2; [apply xpow_lt, HR | exact HS].
 Qed.
